@@ -228,7 +228,7 @@ func (p *perClass) add(m *map[string]int, k string) {
 func TestProp(t *testing.T) {
 	env := vh.GetEnv()
 	rep := vh.NewReport("C06", "exploration")
-	rep.Rule("Part A: flow starts over a raw socket with request targets from a grammar of 20 classes (//host, backslashes, encoded slashes/backslashes/dots, userinfo, URLs in queries, encoded controls, long, empty query/fragment, unicode, scheme-in-path, non-URL bytes, own endpoints, absolute-form own host plain/hostile/other host, random token mixes), 301s followed by hand, each started flow completed honestly; Part B: two browsers' flows on one upstream and 33 callback permutations (state source x cookie source x duplicates x replays x sealed-session confusion; upstreams with mixed rule kinds (address+group, domain+group, address+domain, all three, group only) crossed with 9 group-lookup answers of the authenticator and users passing / failing each e-mail rule; plus, per re-encoding case, every textual variant of one side presented as the other side: padding, std alphabet, percent-escapes, space/tab, CR/LF, NUL, trailing dot, spare trailing bits, Unicode look-alikes, quotes, duplicated parameters, and case changes as a never-accepted control) crossed with authenticator answer, user class, error parameter, extra redirect parameters, request host (own / other upstream with different rules / unknown) on two stacks (http and https cookies). distinct = (target class, template or token-kind sequence, redirect hops, outcome) for Part A and (permutation, answer, user class, error, host relation, method, outcome) for Part B, counted only when the proxy answered the callback")
+	rep.Rule("Part A: flow starts over a raw socket with request targets from a grammar of 21 classes (//host, backslashes, encoded slashes/backslashes/dots/delimiters (%23 %3f %3b), userinfo, URLs in queries, encoded controls, long, empty query/fragment, unicode, scheme-in-path, non-URL bytes, own endpoints, absolute-form own host plain/hostile/other host, random token mixes), 301s followed by hand, each started flow completed honestly; Part B: two browsers' flows on one upstream and 33 callback permutations (state source x cookie source x duplicates x replays x sealed-session confusion; upstreams with mixed rule kinds (address+group, domain+group, address+domain, all three, group only) crossed with 9 group-lookup answers of the authenticator and users passing / failing each e-mail rule; plus, per re-encoding case, every textual variant of one side presented as the other side: padding, std alphabet, percent-escapes, space/tab, CR/LF, NUL, trailing dot, spare trailing bits, Unicode look-alikes, quotes, duplicated parameters, and case changes as a never-accepted control) crossed with authenticator answer, user class, error parameter, extra redirect parameters, request host (own / other upstream with different rules / unknown) on two stacks (http and https cookies). distinct = (target class, template or token-kind sequence, redirect hops, outcome) for Part A and (permutation, answer, user class, error, host relation, method, outcome) for Part B, counted only when the proxy answered the callback; Part C: the flow-start request as an input: 7 methods (GET HEAD POST PUT DELETE PATCH OPTIONS) x request targets (plain every other round, else Part A's classes in turn; return-URL-looking query parameters) x 11 request headers a server could consult for where the user came from (Referer, Origin, X-Forwarded-Uri, X-Original-URI, X-Original-URL, X-Rewrite-Url, X-Forwarded-Path, X-Forwarded-Host, X-Forwarded-Server, X-Forwarded-Prefix, Forwarded; none / exactly one / random subsets) with in-host, other-host, //-prefixed, backslash, encoded and absolute values each marked per header x form body with return-URL-looking fields x cookies held at start (none, garbage session, session for another upstream, lifetime-expired session, an earlier flow's CSRF cookie), pre-flow redirects followed with the method a browser would use, every started flow completed through the real callback and the final Location read as a browser reads it; distinct = (method, target class, template, header:value-class set, start cookies, hops, Location kind, outcome)")
 	rep.Assume("the fake authenticator answers exactly as scripted per code; codes are single-use only where the case says so")
 	rep.Assume("'issued by this proxy's OAuthStart' is ground truth: the harness knows every state/cookie value the running proxy handed out in the case; values the harness seals itself with the known secret are marked as such")
 	rep.Assume("the browser-side reading of Location follows the WHATWG URL rules for special schemes (backslash = slash, tab/CR/LF removed, C0/space trimmed, any number of slashes before the authority); the reader is checked against documented vectors before use")
@@ -241,6 +241,7 @@ func TestProp(t *testing.T) {
 
 	nStart := env.Pick(1200, 36000)
 	nCB := env.Pick(800, 24000)
+	nReq := env.Pick(1008, 30240)
 
 	var worlds []*world
 	for i, secure := range []bool{false, true} {
@@ -267,6 +268,13 @@ func TestProp(t *testing.T) {
 		vh.ForEach(nCB, 0, onlyB, func(i int) { runCallback(rep, env, worlds, i) })
 	}
 	rep.Extra("wall_part_b_s", time.Since(t1).Seconds())
+	t2 := time.Now()
+	pcC := &perClass{}
+	onlyC, skipC := env.Only(streamReq)
+	if !skipC {
+		vh.ForEach(nReq, 0, onlyC, func(i int) { runStartReq(rep, env, worlds, pcC, i) })
+	}
+	rep.Extra("wall_part_c_s", time.Since(t2).Seconds())
 
 	panics := 0
 	for _, w := range worlds {
@@ -321,6 +329,27 @@ func TestProp(t *testing.T) {
 		rep.Floor("b_rules_admitted_sessions", 100)
 		rep.Floor("b_rules_admitted_by_group_only_sessions", 10)
 		rep.Floor("b_reenc_refused_state_nul", 10)
+		// Part C: every method started flows, and each was completed and judged; every header was seen with a
+		// hostile value on a flow started by a method other than GET/HEAD
+		for _, m := range startMethods {
+			if pcC.completed[m] == 0 {
+				rep.Inconclusive("no flow started by " + m + " was completed and judged")
+			}
+			rep.Floor("c_location_same_site_verified_method_"+m, 40)
+			rep.Floor("c_recorded_equals_target_method_"+m, 40)
+		}
+		for _, h := range startHeaders {
+			rep.Floor("c_flows_completed_with_hostile_"+h.Name, 40)
+			rep.Floor("c_flows_completed_other_method_with_hostile_"+h.Name, 20)
+		}
+		rep.Floor("c_flows_completed", 500)
+		rep.Floor("c_sessions_bound_and_verified", 500)
+		rep.Floor("c_location_same_site_verified", 500)
+		rep.Floor("c_flows_completed_started_with_form_body", 50)
+		rep.Floor("c_flows_completed_start_cookies_garbage-session", 20)
+		rep.Floor("c_flows_completed_start_cookies_session-for-other-upstream", 20)
+		rep.Floor("c_flows_completed_start_cookies_lifetime-expired-session", 20)
+		rep.Floor("c_flows_completed_start_cookies_earlier-flow-csrf", 20)
 	}
 	if st := rep.Finish(); st == "violated" {
 		t.Fatalf("C06 violated")
